@@ -269,3 +269,127 @@ let judge_join ~(c05 : bool) (_euis : n list) (steps : step list) : string =
   !verdict
 let judge_c04 = judge_join ~c05:false
 let judge_c05 = judge_join ~c05:true
+
+(* ---------- C02 / C06 / C08 / C09: uplink delivery and the downlink queue ---------- *)
+let dev_state (s : srv) (eui : n) = dt_get s.s_tab eui
+let sframe_of raw = spec_decode raw
+let accepted_devs prev cur = List.filter_map (fun d -> match find_dev prev d.x_eui with
+    | Some p when List.length d.x_inbox > List.length p.x_inbox -> Some d.x_eui | _ -> None) cur
+
+(* the message the specification expects to be transmitted to device st on an accepted uplink *)
+let expected_message (st : dstate) (ack_flag : bool) : dmsg option =
+  let cands = List.filter (fun m -> m.m_sent = N0 || ((not ack_flag) && m.m_ack && m.m_acktime = N0)) st.ds_outbox in
+  match List.stable_sort (fun a b -> cmp_n a.m_created b.m_created) cands with m :: _ -> Some m | [] -> None
+
+let data_downlinks ds = List.filter_map (fun dstr ->
+    let raw = bytes_of_hex (List.hd (String.split_on_char ':' dstr)) in
+    match raw with b0 :: _ when (int_of_n b0 / 32 = 3 || int_of_n b0 / 32 = 5) -> Some raw | _ -> None) ds
+
+let rec is_prefix a b = match a, b with [], _ -> true | x :: s, y :: t -> x = y && is_prefix s t | _ -> false
+
+type which = J02 | J06 | J08 | J09
+
+let judge_queue (w : which) (_euis : n list) (steps : step list) : string =
+  let verdict = ref "ok" in
+  let stepno = ref (-1) in
+  let bad c = if !verdict = "ok" then (verdict := "bad:" ^ c; if debug then prerr_endline (Printf.sprintf "judge: step %d: %s" !stepno c)) in
+  let prev = ref [] in
+  let tx_count : (string, int) Hashtbl.t = Hashtbl.create 16 in   (* eui|created -> transmissions *)
+  List.iter (fun st ->
+    incr stepno;
+    let cur = parse_dump (dump_of st.impl_obs) in
+    (match st.ev with
+     | Rx (rx, _, _) when !verdict = "ok" && not (is_join_typed rx.rx_raw) ->
+       (match split_obs st.impl_obs, sframe_of rx.rx_raw with
+        | Some (ds, ps, _), g ->
+          let auth = authentic_devs st.pre rx.rx_raw in
+          let accepted = accepted_devs !prev cur in
+          let downs = data_downlinks ds in
+          let up_ack = match g with Some g -> s_ack g | None -> false in
+          let up_conf = match g with Some g -> int_of_n g.s_mtype = 4 | None -> false in
+          (* C02: every conformant frame for an application port is accepted and delivered exactly *)
+          if w = J02 then begin
+            match g with
+            | Some g when (match g.s_port with Some p -> int_of_n p >= 1 && int_of_n p <= 223 | None -> false) ->
+              List.iter (fun r ->
+                let eui = hex_of_n r.d_eui in
+                match find_dev !prev eui with
+                | Some p when (r.d_relaxed || int_of_n g.s_fcnt >= p.x_fup) ->
+                  let plain = hex_of_bytes (ref_crypt e r.d_appskey N0 g.s_addr g.s_fcnt g.s_payload) in
+                  (match find_dev cur eui with
+                   | Some d ->
+                     if List.length d.x_inbox <> List.length p.x_inbox + 1 then bad "conformant-uplink-not-recorded-once"
+                     else if List.nth d.x_inbox (List.length d.x_inbox - 1) <> "#" ^ plain then bad "recorded-payload-differs-from-device-plaintext"
+                     else if not (List.exists (fun pstr -> match String.split_on_char ':' pstr with
+                         | [app; e2; pl; gw] -> e2 = eui && pl = plain && n_of_hex gw = rx.rx_gw.g_eui && n_of_hex app = r.d_appeui | _ -> false) ps)
+                     then bad "payload-not-published-to-application"
+                   | None -> ())
+                | _ -> ()) auth
+            | _ -> ()
+          end;
+          (* attribute every data downlink to a device by its keys as they were before the step *)
+          (* among devices sharing address and network key, prefer the one whose uplink was accepted *)
+          let pref = List.filter (fun d -> List.mem d.x_eui accepted) !prev @ List.filter (fun d -> not (List.mem d.x_eui accepted)) !prev in
+          let owners = List.map (fun raw -> (raw, owner_of pref raw)) downs in
+          if w = J06 || w = J09 || w = J08 then
+            List.iter (fun (_, o) -> match o with
+                | None -> bad "downlink-verifies-under-no-device-key"
+                | Some d ->
+                  (* a twin (same address and key) of an accepted device is indistinguishable on the air *)
+                  let twin_accepted = List.exists (fun x -> x.x_nwk = d.x_nwk && x.x_addr = d.x_addr && List.mem x.x_eui accepted) !prev in
+                  if not (List.mem d.x_eui accepted || twin_accepted) then bad "downlink-without-accepted-uplink-of-that-device") owners;
+          List.iter (fun eui ->
+            let mine = List.filter (fun (_, o) -> match o with Some d -> d.x_eui = eui | None -> false) owners in
+            (* devices sharing address and key cannot be told apart on the air: attribute per device *)
+            let twins = List.length (List.filter (fun d -> match find_dev !prev eui with
+                | Some me -> d.x_nwk = me.x_nwk && d.x_addr = me.x_addr && List.mem d.x_eui accepted | None -> false) !prev) in
+            if List.length mine > max 1 twins then bad "more-than-one-downlink-per-uplink";
+            if twins <= 1 then begin
+            let stp = dev_state st.pre (n_of_hex eui) in
+            let exp = expected_message stp up_ack in
+            (match mine with
+             | [(raw, Some d)] ->
+               (match ref_on_downlink e (bytes_of_hex d.x_nwk) (bytes_of_hex d.x_app) (n_of_hex d.x_addr) raw with
+                | Some ((((mt, ackbit), _fc), port), plain) ->
+                  if w = J09 && up_conf && not ackbit then bad "confirmed-uplink-answered-without-ACK";
+                  if w = J09 && (not up_conf) && ackbit then bad "ACK-flag-repeated-on-answer-to-unconfirmed-uplink";
+                  (match port, exp with
+                   | Some p, Some m when plain <> [] ->
+                     if w = J06 || w = J08 then begin
+                       if not (is_prefix plain m.m_data) then bad "downlink-payload-is-not-the-oldest-pending-message"
+                       else if p <> m.m_port then bad "downlink-port-differs-from-queued-port"
+                       else if (int_of_n mt = 5) <> m.m_ack then bad "confirmed-type-differs-from-ack-request"
+                     end;
+                     let key = eui ^ "|" ^ hex_of_n m.m_created in
+                     let c = (try Hashtbl.find tx_count key with Not_found -> 0) + 1 in
+                     Hashtbl.replace tx_count key c;
+                     if w = J08 && c > 1 && not m.m_ack then bad "unconfirmed-message-transmitted-twice"
+                   | Some _, None when plain <> [] -> if w = J06 || w = J08 then bad "payload-transmitted-with-empty-queue"
+                   | _ -> ())
+                | None -> ())
+             | [] ->
+               if w = J09 && up_conf then bad "confirmed-uplink-not-answered";
+               if (w = J08 || w = J06) && exp <> None && (match exp with Some m -> int_of_n m.m_port >= 1 && int_of_n m.m_port <= 223 && m.m_data <> [] | None -> false)
+                  && max_payload rx.rx_radio.r_datr <> None then bad "pending-message-not-transmitted"
+             | _ -> ()) end) accepted;
+          (* C08: outbox bookkeeping *)
+          if w = J08 then
+            List.iter (fun d -> match find_dev !prev d.x_eui with
+                | Some p ->
+                  List.iter (fun (c, s, a, _) -> match List.find_opt (fun (c2, _, _, _) -> c2 = c) p.x_outbox with
+                      | Some (_, s0, a0, _) ->
+                        if a && not a0 then begin
+                          if not (List.mem d.x_eui accepted && up_ack) then bad "acknowledged-without-ACK-uplink"
+                          else if not s0 then bad "acknowledged-before-transmission"
+                        end;
+                        if s && not s0 && not (List.mem d.x_eui accepted) then bad "reported-sent-without-accepted-uplink"
+                      | None -> ()) d.x_outbox
+                | None -> ()) cur
+        | _ -> ())
+     | _ -> ());
+    if cur <> [] then prev := cur) steps;
+  !verdict
+let judge_c02 = judge_queue J02
+let judge_c06 = judge_queue J06
+let judge_c08 = judge_queue J08
+let judge_c09 = judge_queue J09
